@@ -32,7 +32,10 @@ EXC = ("ValueError", "KeyError", "RuntimeError", "ZeroDivisionError", "OSError",
        "StopIteration", "FloatingPointError", "OverflowError", "ArithmeticError", "LookupError", "AttributeError", "NotImplementedError",
        "MemoryError", "RecursionError", "FileNotFoundError", "TimeoutError", "UnicodeError", "BufferError", "EOFError", "ImportError",
        "NameError", "ReferenceError", "ProbeError", "TwoArgError")
-MODES = ("exposure", "exposure_debug", "obs_seq", "obs_seq", "obs_dask_sync", "obs_dask_threads")
+# '*_yamlrun*': the configuration is written to a YAML file and started through pyxel.run(<file>) (what the command line does), without / with an
+# 'outputs' section
+MODES = ("exposure", "exposure_debug", "obs_seq", "obs_seq", "obs_dask_sync", "obs_dask_threads",
+         "exposure_yamlrun", "exposure_yamlrun_outputs", "obs_seq_yamlrun", "obs_seq_yamlrun_outputs")
 
 
 @st.composite
@@ -97,15 +100,32 @@ def run_site(cfg, site, rec, tmp):
         spec["mode"] = {"kind": "observation", "with_dask": mode.startswith("obs_dask"),
                         "parameters": [{"key": "detector.environment.temperature", "values": list(cfg["temps"])}]}
     where = f"{mode} exc={cfg['exc']} site={site} failing model {failing['group']}/{failing['name']}"
-    cfgobj = pyx.build(spec)
     result, raised, stage = None, None, None
     sched = "threads" if mode == "obs_dask_threads" else "synchronous"
-    try:
-        result = pyx.run(cfgobj, debug=mode == "exposure_debug", sched=sched, workers=4, compute=False,
-                         with_inherited_coords=mode.startswith("obs_dask"))
-        stage = "run_mode"
-    except Exception as exc:  # noqa: BLE001
-        raised, stage = exc, "run_mode"
+    if "yamlrun" in mode:
+        import pyxel
+
+        sub = tmp / f"y{site['run']}_{site['step']}_{site['pos']}"
+        sub.mkdir(exist_ok=True)
+        if mode.endswith("outputs"):
+            spec["outputs"] = {"output_folder": str(sub / "out"), "save_data_to_file": [{"detector.pixel.array": ["npy"]}]}
+        pyx.build(spec, render="yaml", tmp=sub)  # writes <sub>/config.yaml (and checks that it loads)
+        P.reset()
+        try:
+            with pyx.scheduler("synchronous", 1):
+                result = pyxel.run(sub / "config.yaml")
+            stage = "pyxel.run"
+        except Exception as exc:  # noqa: BLE001
+            raised, stage = exc, "pyxel.run"
+        mode = "exposure" if mode.startswith("exposure") else "obs_seq"  # the remaining oracles are those of the underlying mode
+    else:
+        cfgobj = pyx.build(spec)
+        try:
+            result = pyx.run(cfgobj, debug=mode == "exposure_debug", sched=sched, workers=4, compute=False,
+                             with_inherited_coords=mode.startswith("obs_dask"))
+            stage = "run_mode"
+        except Exception as exc:  # noqa: BLE001
+            raised, stage = exc, "run_mode"
     if raised is None and mode.startswith("obs_dask"):
         # the failure must surface at the latest when results are computed
         try:
@@ -124,7 +144,7 @@ def run_site(cfg, site, rec, tmp):
         except Exception:  # noqa: BLE001
             pass
     elif raised is None:
-        rec.fail("failure_not_propagated", f"{where}: run_mode returned a result of type {type(result).__name__}")
+        rec.fail("failure_not_propagated", f"{where}: {stage} returned a result of type {type(result).__name__}")
         return
     if raised is None:
         return
